@@ -5,7 +5,9 @@
 P=$1; N=${2:-40}; S=${3:-1}
 V=$(cd "$(dirname "$0")/.." && pwd)
 C=/tmp/vmut-$P-$$
-mkdir -p $C && rsync -a --exclude .git --exclude replays --exclude '.cache/bin' --exclude '.cache/lib' --exclude '.cache/audit' "$V"/ $C/ || exit 2
+mkdir -p $C || exit 2
+rsync -a --exclude .git --exclude replays --exclude '.cache/bin' --exclude '.cache/lib' --exclude '.cache/audit' "$V"/ $C/
+rc=$?; [ $rc -eq 0 ] || [ $rc -eq 24 ] || exit 2     # 24: files vanished while copying (a build running in /verif)
 (cd $C && python3 tools/mutate.py $P -n $N --seed $S) 2>&1 | grep -v -i "conda\|^$"
 mkdir -p "$V/mutation" && cp $C/mutation/$P.json "$V/mutation/$P.json" 2>/dev/null
 rm -rf $C
